@@ -551,3 +551,15 @@ def c17_5(ctx: Ctx) -> RuleResult:
         res.add(None, None, "no call of scipy.stats.qmc.scale in the built-in samplers: nothing to guard", True, construct="qmc.scale sites", where="src/ropt/plugins/sampler", fname="<samplers>")
     res.floor = 1
     return res
+
+
+@rule(P)
+def c17_6(ctx: Ctx) -> RuleResult:
+    """Shared with C16.4."""
+    from .c16 import c16_4
+
+    r = c16_4(ctx)
+    for i in r.instances:
+        i.rule = "C17.6"
+    r.rule, r.title = "C17.6", "each sampler is invoked exactly once per evaluation, in order of first appearance: a variable's perturbation comes from one draw of its own sampler"
+    return r
